@@ -466,7 +466,7 @@ func (g *gwGen) atomParts() (*string, string, string) {
 	case 1:
 		t = strp("RegularExpression")
 	}
-	return t, g.pick("user", "version", "canary", "x-env"), g.pick("a", "v2", "true", "123.*")
+	return t, g.pick("user", "version", "canary", "x-env", "X-Canary-User"), g.pick("a", "v2", "true", "123.*")
 }
 
 func (g *gwGen) headers(max int) []gw.HTTPHeaderMatch {
